@@ -1,3 +1,4 @@
+import Splipy.Lemmas.C10Cummax
 import Splipy.Lemmas.C16Model
 import Splipy.Lemmas.EvalRow
 import Splipy.Properties.C01
@@ -124,14 +125,18 @@ theorem mk?_augKnots {b : Basis K} (hv : b.Valid) {tol : K} (htol : 0 < tol) :
   rw [if_neg (by omega), if_neg (by rw [hsz]; omega), hmax]
   rw [if_neg (by rintro ⟨h, -⟩; exact absurd h (by decide))]
   rw [if_neg (by rintro ⟨h, -⟩; exact absurd h (by decide))]
-  rw [if_neg]
+  have hsort : ∀ i, i + 1 < b.augKnots.size → b.augKnots.getD i 0 ≤ b.augKnots.getD (i + 1) 0 := by
+    intro i hi
+    rw [hsz] at hi
+    rw [b.augKnots_getD (i+1) (by omega) hv.size_pos, b.augKnots_getD i (by omega) hv.size_pos]
+    exact hv.kn_mono (show i - 1 ≤ i + 1 - 1 by omega)
+  rw [if_neg, cummax_of_sorted _ hsort]
   · rfl
   · rw [Bool.not_eq_true, List.any_eq_false]
     intro i hi
-    rw [List.mem_range, hsz] at hi
-    rw [decide_eq_true_eq, b.augKnots_getD (i+1) (by omega) hv.size_pos,
-      b.augKnots_getD i (by omega) hv.size_pos, not_lt]
-    have := hv.kn_mono (show i - 1 ≤ i + 1 - 1 by omega)
+    rw [List.mem_range] at hi
+    rw [decide_eq_true_eq, not_lt]
+    have := hsort i (by omega)
     linarith
 
 /-- The side on which `evaluate(t)` (default `from_right=True`) evaluates: from the right, except
